@@ -37,7 +37,7 @@ EXTRA = ["vloop.c", "lib/upipe/uprobe_upump_mgr.c", "lib/upipe/uprobe_uref_mgr.c
          "lib/upipe/ubuf_pic_mem.c", "lib/upipe/ubuf_sound_common.c", "lib/upipe/ubuf_sound_mem.c",
          "lib/upipe-ts/upipe_ts_align.c", "lib/upipe-ts/upipe_ts_sync.c", "lib/upipe-ts/upipe_ts_check.c"]
 ACTIONS = ["ActReg", "ActUnreg", "ActRequire", "ActSetOut", "ActProvide", "ActRel"]
-QACTIONS = ["RunA", "RunB"]
+QACTIONS = ["RunA", "RunB", "ActAttach"]
 NEG = [("setout_keeps_old", "PathInv"), ("setout_no_reissue", "PathInv"),
        ("unreg_first_proxy", "PathInv"), ("death_keeps_regs", "StepNoSinkFreedWithRegs"),
        ("oob_no_check", "StepNoCallbackAfterUnregister"), ("setout_one_pass", "OneEntry"),
@@ -106,6 +106,8 @@ def cmd_line(c, cmd):
         return "rel %s" % a
     if op == "loop":
         return "loop %s" % a
+    if op == "attach":
+        return "xattach %s" % a
     raise vlib.ToolError("unknown model command %r" % (cmd,))
 
 
@@ -475,6 +477,9 @@ def bookkeeping(c, cmds):
             if b != NONE and (b not in hnd or not c["canin"][b] or pos[b] <= pos[c["outvia"][a]]
                               or c["side"][b] != c["side"][c["outvia"][a]]):
                 return None
+        elif op == "attach":
+            if a not in hnd or c["kind"][a] != "qsink":
+                return None
         elif op == "rel":
             if a not in hnd or c["kind"][a] not in ("fwd", "sink") or \
                     any(reg[r] == a for r in c["reqs"] if c["owner"][r] == NONE):
@@ -553,6 +558,10 @@ def gen_random(rng, c, n):
                 p = rng.choice(cand)
                 x = C("rel", p)
                 hnd.discard(p)
+        elif queue and w < 88:
+            qs = [p for p in c["nodes"] if c["kind"][p] == "qsink" and p in hnd]
+            if qs:
+                x = C("attach", rng.choice(qs))
         elif queue:
             x = C("loop", "A" if rng.chance(1, 2) else "B")
         if x is not None:
